@@ -469,8 +469,12 @@ func (i *Instance) Casketfile() Input {
 // This function blocks until all the servers are listening.
 func Start(cdyfile Input) (*Instance, error) {
 	inst := &Instance{serverType: cdyfile.ServerType(), wg: new(sync.WaitGroup), Storage: make(map[interface{}]interface{})}
+	// event hooks that the configuration registers (the 'on' directive)
+	// must not outlive a failed start
+	oldEventHooks := cloneEventHooks()
 	err := startWithListenerFds(cdyfile, inst, nil)
 	if err != nil {
+		restoreEventHooks(oldEventHooks)
 		return inst, err
 	}
 	signalSuccessToParent()
@@ -583,6 +587,10 @@ func ValidateAndExecuteDirectives(cdyfile Input, inst *Instance, justValidate bo
 	// If parsing only inst will be nil, create an instance for this function call only.
 	if justValidate {
 		inst = &Instance{serverType: cdyfile.ServerType(), wg: new(sync.WaitGroup), Storage: make(map[interface{}]interface{})}
+
+		// nothing is started, so event hooks registered while executing
+		// the directives must not stay behind either
+		defer restoreEventHooks(cloneEventHooks())
 	}
 
 	stypeName := cdyfile.ServerType()
